@@ -73,14 +73,18 @@ add("C13", lambda tier: [Job("h_options", model=False, shim=False, unwind=4, sol
 
 def start_jobs(tier, side, F=None, types=(1, 2, 3, 5, 6, 7)):
     jobs = []
-    F = (1 if tier == "quick" else 2) if F is None else F
+    F = (1 if tier == "quick" else 3) if F is None else F
+    deep = tier == "thorough"
     for it in types:
-        jobs.append(Job("h_start", variant="side%d-in%d-F%d" % (side, it, F),
+        jobs.append(Job("h_start", variant="side%d-in%d-F%d%s" % (side, it, F, "-deep" if deep else ""),
                         defines={"VP_SIDE": side, "VP_IN_TYPE": it, "VP_F": F, "VP_EINTR": 1,
-                                 "VP_MAXEV": 1, "VP_EXTRA": 1},
+                                 "VP_MAXEV": 1, "VP_EXTRA": 2 if deep else 1, "VP_USERFD_SYM": 1 if deep else 0},
                         unwind=20, params={"nfd": 18, "retry": F + 2, "input_max": 3},
-                        cbmc_flags=["--slice-formula"], timeout=1200, solvers=("minisat",),
-                        bounds={"faults": F, "descriptor_table": 18, "stdin_type": it}))
+                        cbmc_flags=["--slice-formula"], timeout=1200 if not deep else 3600,
+                        solvers=("minisat",) if not deep else ("minisat", "cadical"),
+                        bounds={"faults": F, "descriptor_table": 18, "stdin_type": it,
+                                "unrelated_descriptors": 2 if deep else 1,
+                                "caller_descriptors": "any two positions 3..17" if deep else "two layouts (3,4 / 15,16)"}))
     return jobs
 
 
@@ -101,7 +105,7 @@ START_ASSUME = COMMON_ASSUME + [
     "fork is explored one side at a time: the parent side ASSUMES the child's contract G (reports a "
     "positive errno on its error pipe and exits, or execs holding exactly its four descriptors); the "
     "child side PROVES G on the same tree in the same run (DESIGN.md 2.3)",
-    "at most F injected faults per path (quick F=1, thorough F=2), any errno 1..133; EINTR injectable "
+    "at most F injected faults per path (quick F=1, thorough F=3), any errno 1..133; EINTR injectable "
     "at read/waitpid/open/dup2/close/poll/write",
     "descriptor table scaled to 18 slots = soft RLIMIT_NOFILE; MAX_FD_LIMIT (2^20) is exercised through "
     "a symbolic limit in {18, 2^30, RLIM_INFINITY}",
